@@ -189,6 +189,12 @@ def plan(tier, seed):
         cases.append(dict(key=f"form/{name}", kind="form", name=name, seed=seed, tier=tier, cost=5))
     for model in ("line1-scalar-bilinear", "line2-scalar-bilinear", "line1-scalar-linear", "line2-vector2-linear", "line1-sym-bilinear") + (("quad1-scalar-bilinear",) if tier == "thorough" else ()):
         cases.append(dict(key=f"threads/{model}", kind="threads", model=model, seed=seed, tier=tier, cost=60))
+    # field objects with a history: dual fields used in one container / geometry and then re-used in another one
+    for fk in ("axi-mixed3", "ps-mixed3", "mixed3"):
+        cases.append(dict(key=f"reuse/quad/{fk}", kind="reuse", fk=fk, seed=seed, tier=tier, cost=5))
+    # models with many threads (one per (a, i, b, j) basis pair): delay-bounded exploration, 1 delay
+    for model in ("quad1-vector3-bilinear", "tri1-vector2-bilinear") + (("quad8-vector2-bilinear", "hex1-vector3-bilinear") if tier == "thorough" else ()):
+        cases.append(dict(key=f"threads-delay/{model}", kind="threads", model=model, delay=True, seed=seed, tier=tier, cost=60))
     return cases
 
 
@@ -534,6 +540,67 @@ def run_form(case):
     return c.result(dict(case=case["key"], shape=list(base.shape)))
 
 
+def run_reuse(case):
+    """(p, J) dual field objects that were assembled in a container on geometry 1 are re-used, together with a new
+    displacement field, in a container on geometry 2 (same topology, other position / shape); and the other way round
+    (displacement field kept, new dual fields).  Every assembly must equal the one of a freshly created container with
+    the same values on the current geometry -- every order of the steps is walked."""
+    import felupe as fem
+
+    c = Ctx(case["key"])
+    fk, seed = case["fk"], case["seed"]
+    base = zoo.make("quad", "renum", seed)
+    kw = dict(axisymmetric=True) if fk.startswith("axi") else (dict(planestrain=True) if fk.startswith("ps") else {})
+    geoms = {"g1": base.points + np.array([0.0, 0.6]), "g2": base.points * np.array([1.3, 0.8]) + np.array([0.3, 3.1]), "g3": base.points + np.array([0.0, 1.9])}
+
+    def container(g):
+        mesh = fem.Mesh(geoms[g], base.cells, base.cell_type)
+        region = fem.RegionQuad(mesh)
+        return region, fem.FieldsMixed(region, n=3, **kw)
+
+    def forms(cont, region):
+        nf = len(cont.fields)
+        flags = [True] + [False] * (nf - 1)
+        q, nc = region.dV.shape
+        tsh = [block_tshape(f, g) for f, g in zip(cont.fields, flags)]
+        fun = [zoo.offarr(seed, 800 + b, t + (q, nc)) for b, t in enumerate(tsh)]
+        iu, ju = np.triu_indices(nf)
+        funm = [zoo.offarr(seed, 820 + a, tsh[i] + tsh[j] + (q, nc)) for a, (i, j) in enumerate(zip(iu, ju))]
+        v = fem.IntegralForm(fun, cont, region.dV).assemble().toarray()
+        m = fem.IntegralForm(funm, cont, region.dV, cont).assemble().toarray()
+        return v, m
+
+    ref = {}
+    for g in geoms:
+        region, cont = container(g)
+        ref[g] = forms(cont, region)
+    for order in itertools.permutations(list(geoms), 2):
+        for keep in ("dual", "displacement"):
+            for first_assembled in (True, False):
+                ra, ca = container(order[0])
+                if first_assembled:
+                    forms(ca, ra)
+                rb, cb = container(order[1])
+                if keep == "dual":
+                    # new geometry, new displacement field, old dual fields
+                    mixed = fem.FieldContainer([cb.fields[0], *ca.fields[1:]])
+                    got = forms(mixed, rb)
+                    want = ref[order[1]]
+                else:
+                    # displacement field (and its geometry) kept, dual fields taken from the other container
+                    if first_assembled:
+                        forms(cb, rb)
+                    mixed = fem.FieldContainer([ca.fields[0], *cb.fields[1:]])
+                    got = forms(mixed, ra)
+                    want = ref[order[0]]
+                c.trans += 2
+                sub = f"{order[0]}->{order[1]}/keep={keep}/assembled-before={first_assembled}"
+                c.cmp(sub + "/vector", "vector of a container with re-used field objects vs a fresh container on the same geometry", got[0], want[0], 1e-13)
+                c.cmp(sub + "/matrix", "matrix of a container with re-used field objects vs a fresh container on the same geometry", got[1], want[1], 1e-13)
+                c.states += 1
+    return c.result(dict(case=case["key"], geometries=len(geoms)))
+
+
 def thread_model(model, seed):
     import felupe as fem
     from felupe.math import ddot, dot, grad
@@ -542,10 +609,19 @@ def thread_model(model, seed):
         n = 2 if model.startswith("line1") else 3
         mesh = fem.mesh.Line(n=n)
         r = fem.Region(mesh, fem.Line(), fem.GaussLegendre(order=1, dim=1))
+    elif model.startswith("tri1"):
+        mesh = fem.Mesh(np.array([[0.0, 0.0], [1.0, 0.1], [0.2, 0.9]]), np.array([[0, 1, 2]]), "triangle")
+        r = fem.RegionTriangle(mesh)
+    elif model.startswith("quad8"):
+        mesh = fem.Rectangle(n=2).add_midpoints_edges()
+        r = fem.RegionQuadraticQuad(mesh)
+    elif model.startswith("hex1"):
+        mesh = fem.Cube(n=2)
+        r = fem.RegionHexahedron(mesh)
     else:
         mesh = fem.Rectangle(n=2)
         r = fem.RegionQuad(mesh)
-    dim = 2 if "vector2" in model else 1
+    dim = 3 if "vector3" in model else (2 if "vector2" in model else 1)
     cont = fem.FieldContainer([fem.Field(r, dim=dim)])
     q, nc = r.dV.shape
     coef = 1.0 + np.arange(q * nc, dtype=float).reshape(q, nc) / 7
@@ -579,7 +655,15 @@ def run_threads(case):
         return F.assemble(parallel=True, **kw).toarray()
 
     cap = 80000 if case["tier"] == "thorough" else 4000
-    results, stats = sched.explore_threads(go, [mb, ml], ("_bilinear.py", "_linear.py", "c02.py"), bound=bound, cap=cap)
+    if case.get("delay"):
+        # many threads: all schedules with at most one delay; at thread boundaries in the quick tier, at every yield
+        # point (capped) in the thorough tier
+        bound = 1
+        results, stats = sched.explore_delays(go, [mb, ml], ("_bilinear.py", "_linear.py", "c02.py"), bound=1, cap=2500 if case["tier"] == "thorough" else 400, free_only=case["tier"] != "thorough")
+        c.outcomes.add(f"unjoined-threads-at-return={stats['max_unjoined']}")
+        results = [(a, b) for a, b, _ in results]
+    else:
+        results, stats = sched.explore_threads(go, [mb, ml], ("_bilinear.py", "_linear.py", "c02.py"), bound=bound, cap=cap)
     outs = {}
     for choices, r in results:
         c.trans += 1
@@ -594,9 +678,10 @@ def run_threads(case):
     # replay determinism: the first non-trivial schedule twice
     if len(results) > 1:
         ch = results[1][0]
-        s = sched.CoopScheduler(("_bilinear.py", "_linear.py", "c02.py"), ch)
+        s = sched.CoopScheduler(("_bilinear.py", "_linear.py", "c02.py"), ch, delay_mode=bool(case.get("delay")))
         with sched.use_threads(s, [mb, ml]):
             r2 = go()
+            s.drive(record=False)
         if not np.array_equal(r2, results[1][1]) or s.taken != ch:
             c.bad("replay", "replaying a recorded schedule gave a different execution", "diverged", "identical")
     c.nontrivial += [f"schedule{i}" for i in range(min(len(results), 3))]
@@ -607,4 +692,4 @@ def run_threads(case):
 
 
 def run(case):
-    return {"linear": run_linear, "bilinear": run_bilinear, "parallel": run_parallel, "form": run_form, "threads": run_threads}[case["kind"]](case)
+    return {"linear": run_linear, "bilinear": run_bilinear, "parallel": run_parallel, "form": run_form, "threads": run_threads, "reuse": run_reuse}[case["kind"]](case)
